@@ -1283,6 +1283,23 @@ def cmdcluster_family(seed, n, maxlen=2):
     return out
 
 
+def subver_family(seed, n, maxlen=3):
+    """a version configured on a subcommand only (or on the root only): the short name of the version flag is a flag
+    to the tokeniser everywhere, so `leaf -sV` is `leaf -s -V` and answers with the version the leaf declares"""
+    out = []
+    for i in range(n):
+        leaf = level([sw("s0", "-s"), sw("s1", "-t")] if i % 2 else [sw("s0", "-s")], NOTAIL if i % 3 else postail(pos("lp", "opt")),
+                     version=(i % 4 != 3), vtag="1")
+        other = level([sw("o0", "-o")], NOTAIL, version=(i % 4 == 2), vtag="2")
+        cmds = [cmd("leaf", leaf), cmd("other", other)]
+        if i % 5 == 4:
+            cmds = [cmd("mid", level([sw("m0", "-m")], cmdtail(cmds)))]
+        root = level([sw("r0", "-v")] if i % 3 == 0 else [], cmdtail(cmds), version=(i % 4 == 3), vtag="0")
+        out.append(mkdef(f"subver{seed}_{i}", root, maxlen=maxlen, extras=("ver", "vershort", "helpshort"), spells=("sep",),
+                         words=("x",), clusters=True))
+    return out
+
+
 def alt_rep_family(seed, n, maxlen=4, budget=5000):
     """repeated and counted flags as members of the branches of a choice"""
     rnd = random.Random(seed)
